@@ -195,6 +195,7 @@ func introspectionMembers() []string {
 func newEnv(t *testing.T, r *ev.Run) *env {
 	logrus.SetOutput(io.Discard)
 	logrus.SetLevel(logrus.PanicLevel)
+	audit.VerifSilence()
 	e := &env{t: t, r: r, keys: map[string]*party{}, scopes: map[string][]definition{}, revoked: map[string]bool{}}
 	e.base = time.Now().Truncate(time.Second)
 	vtime.Freeze(e.base)
@@ -278,9 +279,12 @@ type node struct {
 	db     storage.SessionDatabase
 }
 
-func (e *env) newNode() *node {
+func (e *env) newNode() *node { return e.newNodeWith(storage.NewInMemorySessionDatabase()) }
+
+// newNodeWith: a fresh authorization server over the given session database (back-end dimension of part "keys")
+func (e *env) newNodeWith(db storage.SessionDatabase) *node {
 	vtime.Freeze(e.base)
-	eng := sessionEngine{Engine: e.vctx.Storage, db: storage.NewInMemorySessionDatabase()}
+	eng := sessionEngine{Engine: e.vctx.Storage, db: db}
 	w := iam.New(e.auth, e.vctx.VCR, resolver.DIDKeyResolver{Resolver: didjwk.NewResolver()}, e.subj, eng, e.pdp, e.ks, e.jsonld)
 	ec := echo.New()
 	ec.HTTPErrorHandler = core.CreateHTTPErrorHandler()
@@ -288,12 +292,25 @@ func (e *env) newNode() *node {
 	return &node{e: e, echo: ec, nonces: map[string]bool{}, db: eng.db}
 }
 
+// serve runs one request through the node's routes. A panic inside a handler (the product runs echo's recover middleware;
+// the harness does not) is reported as status 599 and noted as an observation — crashes are C19's subject, not C02's.
+func (n *node) serve(rec *httptest.ResponseRecorder, req *http.Request) {
+	defer func() {
+		if p := recover(); p != nil {
+			rec.Code = 599
+			rec.Body.Reset()
+			n.e.r.Observation("handler-panic", map[string]any{"path": req.URL.Path, "panic": fmt.Sprint(p)})
+		}
+	}()
+	n.echo.ServeHTTP(rec, req)
+}
+
 func (n *node) post(path string, form url.Values) (int, []byte) {
 	req := httptest.NewRequest(http.MethodPost, path, strings.NewReader(form.Encode()))
 	req.Header.Set("Content-Type", "application/x-www-form-urlencoded")
 	req.Header.Set("Accept", "application/json")
 	rec := httptest.NewRecorder()
-	n.echo.ServeHTTP(rec, req)
+	n.serve(rec, req)
 	return rec.Code, rec.Body.Bytes()
 }
 
@@ -2000,6 +2017,9 @@ type flowAnswer struct {
 	// for the definition asked for maps into position Map via path_nested
 	Kinds []string `json:"kinds,omitempty"`
 	Map   int      `json:"map,omitempty"`
+	// part "keys": the literal state / nonce string to send instead (computed from the live keys of the node)
+	StateRaw *string `json:"state_raw,omitempty"`
+	NonceRaw *string `json:"nonce_raw,omitempty"`
 }
 
 func (a flowAnswer) String() string {
@@ -2042,13 +2062,14 @@ type flowSession struct {
 	refWhy   map[string]string // definition id as sent -> first reference clause the last answer for it failed
 	code     string
 	dead     string
+	location string // the redirect the authorize request was answered with
 }
 
 func (n *node) get(path string) (int, http.Header, []byte) {
 	req := httptest.NewRequest(http.MethodGet, path, nil)
 	req.Header.Set("Accept", "application/json")
 	rec := httptest.NewRecorder()
-	n.echo.ServeHTTP(rec, req)
+	n.serve(rec, req)
 	return rec.Code, rec.Header(), rec.Body.Bytes()
 }
 
@@ -2094,7 +2115,13 @@ func (fs *flowSession) fetchRequest(location string) *flowRequest {
 }
 
 func (e *env) startFlow(n *node, tenant, scope string) (*flowSession, string) {
-	fs := &flowSession{n: n, tenant: tenant, scope: scope, clientID: "https://client.c02.example/oauth2/holder",
+	return e.startFlowAs(n, tenant, scope, "https://client.c02.example/oauth2/holder", true)
+}
+
+// startFlowAs: authorize request of the given client; fetch=false leaves the request object unfetched (its id stays live
+// in the node's request-object store and the session cannot be continued by the harness).
+func (e *env) startFlowAs(n *node, tenant, scope, clientID string, fetch bool) (*flowSession, string) {
+	fs := &flowSession{n: n, tenant: tenant, scope: scope, clientID: clientID,
 		verifier: uuid.NewString() + uuid.NewString(), usedN: map[string]bool{}, refDone: map[string]bool{}, refWhy: map[string]string{}}
 	sum := sha256.Sum256([]byte(fs.verifier))
 	now := time.Now().Unix()
@@ -2106,7 +2133,10 @@ func (e *env) startFlow(n *node, tenant, scope string) (*flowSession, string) {
 	if status != 302 {
 		return fs, fmt.Sprintf("authorize request refused: %d %s", status, body)
 	}
-	fs.cur = fs.fetchRequest(hdr.Get("Location"))
+	fs.location = hdr.Get("Location")
+	if fetch {
+		fs.cur = fs.fetchRequest(fs.location)
+	}
 	return fs, ""
 }
 
@@ -2192,12 +2222,18 @@ func (fs *flowSession) answer(a flowAnswer, otherState string, prevFulfilled str
 	case "random":
 		v.Nonce = uuid.NewString()
 	}
+	if a.NonceRaw != nil {
+		v.Nonce = *a.NonceRaw
+	}
 	state := req.State
 	switch a.State {
 	case "other-session":
 		state = otherState
 	case "random":
 		state = uuid.NewString()
+	}
+	if a.StateRaw != nil {
+		state = *a.StateRaw
 	}
 	vp := ""
 	if len(a.Kinds) > 0 && def != nil {
@@ -2282,11 +2318,16 @@ func (fs *flowSession) answer(a flowAnswer, otherState string, prevFulfilled str
 		fs.usedN[vf.Nonce] = true
 	}
 
+	return fs.deliver(form)
+}
+
+// deliver posts one direct_post answer and interprets what the node says (next request, code, refusal).
+func (fs *flowSession) deliver(form url.Values) (outcome string) {
 	preq := httptest.NewRequest(http.MethodPost, "/oauth2/"+fs.tenant+"/response", strings.NewReader(form.Encode()))
 	preq.Header.Set("Content-Type", "application/x-www-form-urlencoded")
 	preq.Header.Set("Accept", "application/json")
 	prec := httptest.NewRecorder()
-	fs.n.echo.ServeHTTP(prec, preq)
+	fs.n.serve(prec, preq)
 	status, body := prec.Code, prec.Body.Bytes()
 	if status == 302 { // errors after the session is known are redirected to the client's callback
 		if lu, err := url.Parse(prec.Header().Get("Location")); err == nil {
